@@ -1,0 +1,39 @@
+//go:build verif
+
+package utils
+
+// Contracts for helpers (comment-only; read by /verif/govc).
+
+// ParameterBag is abstracted by a version counter: reads are functions of (bag, key, version); every
+// mutator bumps the version. The map-and-mutex implementation is trusted to behave like a map.
+//@ ghost field (*ParameterBag).$bagver int
+
+//@ func (*ParameterBag).Peek(key, _default)
+//@   trusted "map-backed parameter bag abstracted as a function of (bag, key, version)"
+//@   pure
+//@   ensures result == uf_s_peek(p, key, p.$bagver)
+
+//@ func (*ParameterBag).Has(key)
+//@   trusted "map-backed parameter bag abstracted as a function of (bag, key, version)"
+//@   pure
+//@   ensures result == uf_b_has(p, key, p.$bagver)
+
+//@ func (*ParameterBag).Get(key, _default)
+//@   trusted "map-backed parameter bag abstracted as a function of (bag, key, version)"
+//@   pure
+//@   ensures result1 == uf_b_has(p, key, p.$bagver) && (result1 ==> result0 == uf_s_peek(p, key, p.$bagver))
+
+//@ func (*ParameterBag).Remove(key)
+//@   trusted "map-backed parameter bag abstracted as a function of (bag, key, version)"
+//@   modifies p.$bagver
+//@   ensures !uf_b_has(p, key, p.$bagver)
+
+//@ func (*ParameterBag).Set(key, value)
+//@   trusted "map-backed parameter bag abstracted as a function of (bag, key, version)"
+//@   modifies p.$bagver
+//@   ensures uf_b_has(p, key, p.$bagver) && uf_s_peek(p, key, p.$bagver) == value
+
+//@ func CheckInvalidHeaderChar(s)
+//@   trusted "byte scan abstracted by an uninterpreted predicate of the string"
+//@   pure
+//@   ensures result == uf_b_invalidHeaderChar(s)
